@@ -1467,12 +1467,16 @@ class FileHashStore(HashStore):
         try:
             self._synchronize_referenced_locked_pids(pid)
             self._synchronize_object_locked_cids(cid)
+            pid_already_tagged = False
 
             try:
                 # Prepare files and paths
                 tmp_root_path = self._get_store_path("refs") / "tmp"
                 pid_refs_path = self._get_hashstore_pid_refs_path(pid)
                 cid_refs_path = self._get_hashstore_cid_refs_path(cid)
+                # A pid that already has a reference file is not tagged by this request (it is
+                # rejected below), so a failure must not revert that earlier tagging
+                pid_already_tagged = os.path.isfile(pid_refs_path)
                 # Create paths for pid ref file in '.../refs/pid' and cid ref file in '.../refs/cid'
                 self._create_path(Path(os.path.dirname(pid_refs_path)))
                 self._create_path(Path(os.path.dirname(cid_refs_path)))
@@ -1556,7 +1560,8 @@ class FileHashStore(HashStore):
                 # much as possible. No exceptions from the reverting process will be thrown.
                 err_msg = f"Unexpected exception: {ue}, reverting tagging process (untag obj)."
                 self.fhs_logger.error(err_msg)
-                self._untag_object(pid, cid)
+                if not pid_already_tagged:
+                    self._untag_object(pid, cid)
                 raise ue
 
         finally:
